@@ -433,6 +433,7 @@ class Exec:
         self.paths = 0
         self.stop_at = stop_at         # optional predicate(fn, bb, terminator) -> bool : stop path here
         self.heap = {}                 # oid -> [field values]; snapshot on forks, recorded in every Outcome
+        self.max_revisit = 1           # > 1: bounded loop unrolling (a block may occur that often on one path)
         self.havoc_unknown = havoc_unknown   # unknown EXTERNAL calls: event + arbitrary result of the declared type
         self.havoc_n = 0
 
@@ -530,6 +531,8 @@ class Exec:
                     ev = base[1]
                     if isinstance(ev, RefV):
                         ev = ev.target
+                    if isinstance(ev, OpaqueV) and self.havoc_unknown:
+                        return OpaqueV("%s.%s.%d" % (ev.what, base[2], k))
                     if not isinstance(ev, EnumV) or ev.variant is None:
                         raise EncodingError("payload access on enum with symbolic variant in %s: %s" % (fn.name, p))
                     return ev.fields[k]
@@ -545,6 +548,8 @@ class Exec:
                     return base.fields[k]
                 if isinstance(base, (IntV, BoolV)) and k == 0:
                     return base      # newtype struct around a scalar
+                if isinstance(base, OpaqueV) and self.havoc_unknown:
+                    return OpaqueV("%s.%d" % (base.what, k))
                 raise EncodingError("field projection on %r in %s: %s" % (base, fn.name, p))
         raise EncodingError("cannot parse place %r in %s" % (p, fn.name))
 
@@ -661,6 +666,14 @@ class Exec:
             if isinstance(v, BoolV):
                 return BoolV(s_not(v.term), None if v.const is None else (not v.const))
             raise EncodingError("Not on %r" % (v,))
+        if m and m.group(1) == "PtrMetadata":
+            v = self.operand(m.group(2), env, fn)
+            key = "len:" + repr(self.load(v))
+            if not hasattr(self, "_memo"):
+                self._memo = {}
+            if key not in self._memo:
+                self._memo[key] = self.ctx.fresh_int("slice_len", "usize")
+            return self._memo[key]
         if m and m.group(1) == "discriminant":
             v = self.read_place(m.group(2), env, fn)
             if isinstance(v, RefV):
@@ -670,6 +683,16 @@ class Exec:
                     return v.discr
                 if isinstance(v.variant, int):
                     return mk_int(v.variant, "isize")
+            if isinstance(v, LocV):
+                v = self.heap[v.oid][v.k]
+            if isinstance(v, OpaqueV) and self.havoc_unknown:
+                # an opaque object's variant is arbitrary (memoised per object)
+                if not hasattr(self, "_memo"):
+                    self._memo = {}
+                key = "discr:" + v.what
+                if key not in self._memo:
+                    self._memo[key] = self.ctx.fresh_int("discr", "isize")
+                return self._memo[key]
             raise EncodingError("discriminant of %r in %s" % (v, fn.name))
         m2 = re.fullmatch(r"(.+) as (.+?) \((\w+)(?:\(.*\))?\)", r)
         if m2:
@@ -753,7 +776,11 @@ class Exec:
             if visited > 400:
                 raise EncodingError("path too long (loop?) in %s" % fn.name)
             if bb in trace:
-                raise EncodingError("loop detected in %s at %s (engine M refuses loops)" % (fn.name, bb))
+                if self.max_revisit <= 1:
+                    raise EncodingError("loop detected in %s at %s (engine M refuses loops)" % (fn.name, bb))
+                if trace.count(bb) >= self.max_revisit:
+                    self._emit(out, Outcome("unrolled-out", pc, msg=bb, events=events, trace=trace))
+                    return
             trace = trace + [bb]
             stmts, term, _cleanup = fn.blocks[bb]
             for st in stmts:
@@ -913,6 +940,7 @@ class Exec:
 
     def call(self, callee, args, pc, events, fn, depth, ret_ty=None):
         """Returns [(pc, events, value|None, heap)]."""
+        self.cur_ret_ty = ret_ty
         for rx, model in self.models:
             if rx.startswith("const:"):
                 continue
